@@ -11,7 +11,7 @@ use super::{
     TSetIdentifier, TStructIdentifier, TType, ThriftException, ZERO_COPY_THRESHOLD,
     error::ProtocolExceptionKind,
     new_protocol_exception,
-    rw_ext::{ReadExt, WriteExt, read_exact_to_vec, split_to_checked},
+    rw_ext::{ReadExt, WriteExt, checked_container_size, read_exact_to_vec, split_to_checked},
 };
 
 const VERSION_LE: u32 = 0x88880000;
@@ -916,8 +916,8 @@ impl TInputProtocol for TBinaryProtocol<&mut Bytes> {
     #[inline]
     fn read_list_begin(&mut self) -> Result<TListIdentifier, ThriftException> {
         let element_type: TType = self.read_byte().and_then(|n| Ok(field_type_from_u8(n)?))?;
-        let size = self.read_i32()?;
-        Ok(TListIdentifier::new(element_type, size as usize))
+        let size = checked_container_size(self.read_i32()?, self.trans.len())?;
+        Ok(TListIdentifier::new(element_type, size))
     }
 
     #[inline]
@@ -928,8 +928,8 @@ impl TInputProtocol for TBinaryProtocol<&mut Bytes> {
     #[inline]
     fn read_set_begin(&mut self) -> Result<TSetIdentifier, ThriftException> {
         let element_type: TType = self.read_byte().and_then(|n| Ok(field_type_from_u8(n)?))?;
-        let size = self.read_i32()?;
-        Ok(TSetIdentifier::new(element_type, size as usize))
+        let size = checked_container_size(self.read_i32()?, self.trans.len())?;
+        Ok(TSetIdentifier::new(element_type, size))
     }
 
     #[inline]
@@ -941,8 +941,8 @@ impl TInputProtocol for TBinaryProtocol<&mut Bytes> {
     fn read_map_begin(&mut self) -> Result<TMapIdentifier, ThriftException> {
         let key_type: TType = self.read_byte().and_then(|n| Ok(field_type_from_u8(n)?))?;
         let value_type: TType = self.read_byte().and_then(|n| Ok(field_type_from_u8(n)?))?;
-        let size = self.read_i32()?;
-        Ok(TMapIdentifier::new(key_type, value_type, size as usize))
+        let size = checked_container_size(self.read_i32()?, self.trans.len())?;
+        Ok(TMapIdentifier::new(key_type, value_type, size))
     }
 
     #[inline]
